@@ -40,7 +40,7 @@ func c17Cfg(jobs string) string {
 	return s
 }
 
-// per-job update values: -1 absent, 0 empty, 1 {t1}, 2 {t1,t2}, 3 {t1, dropped}
+// per-job update values: -1 absent, 0 empty, 1 {t1}, 2 {t1,t2}, 3 {t1, dropped}, 4 {t2}, 6 {t1} twice (two groups)
 func c17Groups(job byte, v int) []*targetgroup.Group {
 	mk := func(names ...string) []*targetgroup.Group {
 		g := &targetgroup.Group{Source: string(job)}
@@ -66,13 +66,18 @@ func c17Groups(job byte, v int) []*targetgroup.Group {
 		return mk("t2")
 	case 5:
 		return mk("t1", "t2", "t3")
+	case 6:
+		// the same target in two groups of the job (two discovery sources reporting one endpoint)
+		a, b := mk("t1"), mk("t1")
+		b[0].Source = string(job) + "-second"
+		return append(a, b...)
 	}
 	return nil
 }
 
 func c17Active(v int) []string {
 	switch v {
-	case 1, 3:
+	case 1, 3, 6:
 		return []string{"t1"}
 	case 2:
 		return []string{"t1", "t2"}
@@ -151,8 +156,13 @@ func (s *c17Sys) view(universe map[string]uint64) c17View {
 	v := c17View{Active: map[string][]string{}, Dropped: map[string][]string{}}
 	for j, ts := range s.d.ActiveTargets() {
 		v.Active[j] = []string{}
+		seen := map[string]bool{}
 		for _, t := range ts {
-			v.Active[j] = append(v.Active[j], addrOf(t))
+			// a set: one endpoint reported by two groups of a job is one target (equal labels, URL and hash)
+			if a := addrOf(t); !seen[a] {
+				seen[a] = true
+				v.Active[j] = append(v.Active[j], a)
+			}
 		}
 		sort.Strings(v.Active[j])
 	}
@@ -251,7 +261,7 @@ func (m *c17Model) view() c17View {
 
 func c17Alphabet(thorough bool) []c17Op {
 	var ops []c17Op
-	vals := []int{-1, 0, 1, 2, 3, 4}
+	vals := []int{-1, 0, 1, 2, 3, 4, 6}
 	for _, a := range vals {
 		for _, b := range vals {
 			if a == -1 && b == -1 {
@@ -274,7 +284,7 @@ func c17Alphabet(thorough bool) []c17Op {
 			}
 			a, aok := o.U["A"]
 			b, bok := o.U["B"]
-			if _, hasC := o.U["C"]; hasC || (aok && bok && (a == 2 || a == -1 || a == 4) && (b == 3 || b == -1 || b == 1)) {
+			if _, hasC := o.U["C"]; hasC || (aok && bok && (a == 2 || a == -1 || a == 4 || a == 6) && (b == 3 || b == -1 || b == 1)) {
 				red = append(red, o)
 			}
 		}
